@@ -62,8 +62,8 @@ MODULES = ["foo", "foo.bar", "foo.bar.qux", "foo.barbaz", "foobar", "foo_bar", "
 OBS_MODULES = sorted(LATE) + MODULES
 # static module-level imports (beyond parents)
 IMPORTS = {"foo": ["foo.bar"], "foo.bar.qux": ["foobar"], "foo_bar": ["foo.bar"]}
-HOOK_NAMES = ["latemod", "foo.late", "foo", "foo.bar", "foo.bar.qux", "foo.barbaz", "foobar", "foo_bar", "fo", "foobar2", "foo.ba", "foob", "bar", "foobar2.foo", "foo.bar.q"]
-TOP = ["foo", "foobar", "foo_bar", "fo", "foobar2", "latemod"]
+HOOK_NAMES = ["zmod", "zpkg", "latemod", "foo.late", "foo", "foo.bar", "foo.bar.qux", "foo.barbaz", "foobar", "foo_bar", "fo", "foobar2", "foo.ba", "foob", "bar", "foobar2.foo", "foo.bar.q"]
+TOP = ["foo", "foobar", "foo_bar", "fo", "foobar2", "latemod", "zmod", "zpkg"]
 
 _state = {}
 
@@ -77,6 +77,15 @@ def setup_forest():
         os.makedirs(os.path.dirname(p), exist_ok=True)
         with open(p, "w") as f:
             f.write(src)
+    # a package and a module inside a zip archive on sys.path (whether the hook instruments zipped sources is not settled by the
+    # statement; hooked or not, importing them has to work)
+    import zipfile
+
+    with zipfile.ZipFile(os.path.join(d, "bundle.zip"), "w") as z:
+        z.writestr("zmod.py", LATE_SRC)
+        z.writestr("zpkg/__init__.py", "from . import inner\n" + LATE_SRC)
+        z.writestr("zpkg/inner.py", LATE_SRC)
+    sys.path.insert(0, os.path.join(d, "bundle.zip"))
     spy = types.ModuleType("vf_spy")
     spy.log = []
 
@@ -286,6 +295,17 @@ def check_history(ctx, ops):
                     model.do_import(op[1])
                 elif "." in op[1]:
                     model.do_import(op[1].rsplit(".", 1)[0])  # the parent package was imported on the way
+            elif kind == "import-zip":
+                try:
+                    zm = importlib.import_module(op[1])
+                    try:
+                        zm.f("not-an-int")
+                    except jaxtyping.TypeCheckError:
+                        pass
+                    zm.f(3)
+                except Exception as e:  # noqa: BLE001
+                    raise Violation("operation-raised", {"ops": ops}, f"op #{i}: importing / using {op[1]} from a zip archive on sys.path raised {type(e).__name__}: {e}; hooks={model.hooks}; history={ops[:i + 1]}")
+                model.flags.add("zipped-module-imported-under-hooks" if any(h["active"] for h in model.hooks) else "zipped-module")
             elif kind == "lazy":
                 try:
                     if "foo.barbaz" not in sys.modules:
@@ -356,6 +376,7 @@ op_st = st.one_of(
     st.tuples(st.just("lazy")),
     st.tuples(st.just("try-import"), st.sampled_from(sorted(LATE))),
     st.tuples(st.just("create"), st.sampled_from(sorted(LATE))),
+    st.tuples(st.just("import-zip"), st.sampled_from(["zmod", "zpkg", "zpkg.inner"])),
     st.tuples(st.just("try-import"), st.sampled_from(sorted(LATE))),
     st.tuples(st.just("disable"), st.sampled_from([True, False, True])),
     st.tuples(st.just("pytest"), names_st, st.sampled_from(["a", "b"]), st.booleans()),
